@@ -47,6 +47,43 @@ def Y(b):
     return {'y': b.hex()}
 
 
+def make_mv(d):
+    m = memoryview(bytes.fromhex(d['hex']))
+    if d.get('shape'):
+        m = m.cast(d['fmt'], shape=d['shape'])
+    elif d['fmt'] != 'B':
+        m = m.cast(d['fmt'])
+    if d.get('step', 1) != 1:
+        m = m[::d['step']]
+    return m
+
+
+def mv_bytes(d):
+    """the bytes a memoryview argument stands for (what a blob must carry)"""
+    return make_mv(d).tobytes()
+
+
+def MV(fmt, items, step=1, shape=None, fill=None):
+    """a memoryview over `items` items of struct format `fmt` (array('i'), array('d'), cast views), optionally
+    multi-dimensional or strided (non-contiguous)"""
+    size = struct.calcsize(fmt)
+    raw = bytes(((j * 37 + 11) % 251 if fill is None else fill) for j in range(items * size))
+    return {'mv': {'fmt': fmt, 'hex': raw.hex(), 'step': step, 'shape': shape}}
+
+
+def has_wide_mv(t):
+    """a memoryview whose len() is not its size in bytes somewhere in the tree"""
+    if isinstance(t, list):
+        return any(has_wide_mv(x) for x in t)
+    if isinstance(t, dict):
+        if 'mv' in t:
+            m = make_mv(t['mv'])
+            return len(m) != m.nbytes
+        if 't' in t:
+            return any(has_wide_mv(x) for x in t['t'])
+    return False
+
+
 def is_numhead(t):
     return t is None or isinstance(t, bool) or (isinstance(t, dict) and ('i' in t or 'f' in t))
 
@@ -80,6 +117,8 @@ def pyval(t):
         return tuple(pyval(x) for x in t['t'])
     if 'ya' in t or 'ym' in t:
         return bytes.fromhex(t.get('ya') or t.get('ym') or '')
+    if 'mv' in t:
+        return mv_bytes(t['mv'])
     return ('other', t['o'])
 
 
@@ -92,6 +131,11 @@ def show(t):
             return 'bytes(%d)' % t['z']
         if isinstance(t, dict) and 't' in t:
             return '(' + ', '.join(r(x) for x in t['t']) + (',)' if len(t['t']) == 1 else ')')
+        if isinstance(t, dict) and 'mv' in t:
+            d = t['mv']
+            m = make_mv(d)
+            return "memoryview(%d bytes as '%s'%s%s: len %d)" % (len(d['hex']) // 2, d['fmt'], ', shape %s' % d['shape'] if d.get('shape') else '',
+                                                               '[::%d]' % d['step'] if d.get('step', 1) != 1 else '', len(m))
         if isinstance(t, dict) and ('ya' in t or 'ym' in t):
             return ('bytearray(%r)' if 'ya' in t else 'memoryview(%r)') % bytes.fromhex(t.get('ya') or t.get('ym') or '')
         if isinstance(t, dict) and 'o' in t:
@@ -178,6 +222,8 @@ def coq_arg(t, tags, pos='elem'):
         return '(ABytes %s)' % cb(bytes.fromhex(t.get('ya') or t.get('ym') or ''))
     if 'z' in t:
         return '(ABytes (rp 0 %d))' % t['z']
+    if 'mv' in t:                   # a blob: the bytes the view stands for, whatever its item width, shape or stride
+        return '(ABytes %s)' % cb(mv_bytes(t['mv']))
     if t.get('o') == 'bytearray0':
         return '(ABytes [])'
     if is_tuple(t):
@@ -265,6 +311,15 @@ def g_arg(rng, depth):
     if k < 0.60:
         return S(g_str(rng))
     if k < 0.76:
+        if rng.random() < 0.2:      # the blob given as a memoryview: items of 1, 2, 4 or 8 bytes, 2-d, strided
+            fmt = rng.choice(['B', 'b', 'H', 'i', 'I', 'f', 'd', 'q'])
+            n = rng.randint(1, 6)
+            r = rng.random()
+            if r < 0.2 and n % 2 == 0:
+                return MV(fmt, n, shape=[2, n // 2])
+            if r < 0.4:
+                return MV(fmt, n, step=rng.choice([2, 3]))
+            return MV(fmt, n)
         return Y(g_bytes(rng))
     if k < 0.80:
         return []
@@ -481,6 +536,15 @@ def build_cases(ctx):
               [Fl(0.5), Tup(Fl(0.25), [S('/late')])], [None, Tup(None, Tup(None, Tup(S('/deep'), Y(b'abc'), S('é'))))]):
         add('bundle', v, 'seqtype_elem')
         cases[-1]['clump'] = [40, 64, 8192]
+    # blobs given as memoryviews whose len() is not their size in bytes: array('i'), array('d'), cast views,
+    # multi-dimensional and non-contiguous (strided) views, empty views
+    mvs = [MV('i', 3), MV('d', 2), MV('H', 5), MV('q', 1), MV('f', 4), MV('B', 5), MV('i', 4, shape=[2, 2]), MV('d', 6, shape=[3, 2]),
+           MV('i', 6, step=2), MV('B', 7, step=2), MV('H', 9, step=3), MV('i', 0), MV('d', 4, step=5)]
+    for m in mvs:
+        add('msg', [S('/b_setn'), I(0), m, I(7)], 'memoryview_arg')
+        add('msg', [S('/d_recv'), m, [S('/y'), m, S('é')]], 'memoryview_in_completion')
+        add('bundle', [Fl(0.2), [S('/a'), m], Tup(S('/b'), I(1), m), [Fl(0.5), [S('/c'), m, m]]], 'memoryview_in_bundle')
+        cases[-1]['clump'] = [40, 64, 100, 8192]
     add('msg', [S('/x')], 'noargs')
     add('msg', [S('/x'), None, True, False, []], 'coercions')
     add('msg', [S('/x'), S('['), I(1), S('['), Fl(2.0), S(']'), S('a'), S(']'), I(3)], 'arrays')
@@ -613,8 +677,8 @@ def enc_size(t):
         for a in t[1:]:
             if isinstance(a, dict) and 's' in a:
                 n += 0 if a['s'] in '[]' and a['s'] else (len(a['s'].encode()) // 4 + 1) * 4
-            elif isinstance(a, dict) and ('y' in a or 'z' in a):
-                k = a['z'] if 'z' in a else len(a['y']) // 2
+            elif isinstance(a, dict) and ('y' in a or 'z' in a or 'mv' in a):
+                k = a['z'] if 'z' in a else (len(mv_bytes(a['mv'])) if 'mv' in a else len(a['y']) // 2)
                 n += 4 + (k + 3) // 4 * 4
             elif isinstance(a, list) and a:
                 n += 4 + enc_size(a)
@@ -632,6 +696,19 @@ COMPLETIONS = [
     [S('/d_recv'), Y(bytes(51)), [S('/s_new'), S('x'), I(-1)]],
     [None, [S('/g_new'), I(1)], [S('/s_new'), S('c06def'), I(-1), I(0), I(1)]],
 ]
+
+
+def norm(t):
+    """a tree with every blob (bytes, bytearray, memoryview of any item width) reduced to the bytes it stands for:
+    what was sent is compared with what was given up to the container type of blobs"""
+    if isinstance(t, list):
+        return [norm(x) for x in t]
+    if isinstance(t, dict):
+        if 't' in t:
+            return {'t': [norm(x) for x in t['t']]}
+        if any(x in t for x in ('y', 'z', 'ya', 'ym', 'mv')):
+            return {'blob': pyval(t).hex() if len(pyval(t)) < 4096 else (len(pyval(t)), hash(pyval(t)))}
+    return t
 
 
 def untuple(t):
@@ -712,6 +789,22 @@ def site_cases(ctx):
               [S('/b_setn'), I(0), I(0), I(1626)] + [Fl(((j * 37) % 256 - 128) / 128.0) for j in range(1626)],
               [S('/b_setn'), I(0), I(1626), I(3)] + [Fl(0.0), Fl(-0.0), Fl(1.0)]):
         cases.append({'kind': 'sendmsg', 'v': v, 'cls': 'sendmsg'})
+    # blobs given as memoryviews of doubles / ints: the prediction must count bytes, not items
+    def mv_elems(fmt, items, total):
+        out, acc, j = [], 16, 0
+        while acc < total:
+            m = [S('/m%03d' % j), MV(fmt, items, fill=0), I(j)]
+            out.append(m)
+            acc += 4 + enc_size(m)
+            j += 1
+        return out
+    for kind_, lim_ in (('clumped', MAX_UDP), ('sync', MAX_UDP - SYNC)):
+        cases.append({'kind': kind_, 'time': Fl(0.2), 'els': mv_elems('d', 250, lim_ + 3000), 'via': 'direct', 'cls': kind_ + '_memoryview_elements'})
+        cases.append({'kind': kind_, 'time': None, 'els': mv_elems('i', 300, lim_ - 2000), 'via': 'ctx', 'cls': kind_ + '_memoryview_elements'})
+    for T_ in (MAX_UDP - 4, MAX_UDP + 4):
+        comp = [S('/b_setn'), I(0), I(0), I(64), MV('d', 64, fill=0)]
+        cases.append({'kind': 'dsend', 'L': T_ - 16 - 4 - enc_size(comp), 'comp': comp, 'via': 'send', 'cls': 'dsend_memoryview_completion'})
+    cases.append({'kind': 'sendmsg', 'v': [S('/b_setn'), I(0), MV('d', 3), MV('i', 5, step=2), MV('H', 4, shape=[2, 2])], 'cls': 'sendmsg'})
     for kind_, lim_ in (('clumped', MAX_UDP), ('sync', MAX_UDP - SYNC)):
         for tot in (lim_ - 1500, lim_ + 1500):
             cases.append({'kind': kind_, 'time': Fl(0.2), 'els': elems(2000, tot, tuples=True), 'via': 'direct', 'cls': kind_ + '_tuple_elements'})
@@ -739,6 +832,9 @@ def check_sites(ctx, c):
     per_sig = {}
 
     def fail(sig, what, k, extra, theorem):
+        if sig in MV_SIGS and (has_wide_mv(k.get('els')) or has_wide_mv(k.get('comp')) or has_wide_mv(k.get('v'))):
+            sig = 'C06:memoryview-blob-item-count'
+            what = what + '  [a memoryview blob whose len() is not its size in bytes]'
         per_sig[sig] = per_sig.get(sig, 0) + 1
         if per_sig[sig] > 2:            # two replays per kind of failure are enough
             return
@@ -788,7 +884,7 @@ def check_sites(ctx, c):
         if o.get('mutated'):
             fail('C06:argument_mutated', 'the use site %s modified the list(s) passed by the caller' % k['kind'], k, {}, None)
         if k['kind'] == 'sendmsg':
-            if len(calls) != 1 or calls[0]['args'] != k['v'] or len(calls[0].get('dgrams', [])) != 1:
+            if len(calls) != 1 or norm(calls[0]['args']) != norm(k['v']) or len(calls[0].get('dgrams', [])) != 1:
                 fail('C06:sendmsg_differs', 'send_msg did not send exactly the message it was given: %s' % show(k['v'])[:200], k, {}, 'msg_roundtrip')
             continue
         if k['kind'] == 'dsend':
@@ -799,11 +895,11 @@ def check_sites(ctx, c):
             c.count('site:dsend:' + ('d_recv' if chose else ('d_load' if sent else 'nothing-sent')))
             if chose:
                 c.nontriv(('site', k['L'], show(comp)))
-                if sent[0]['args'] != intended:
+                if norm(sent[0]['args']) != norm(intended):
                     fail('C06:d_recv_message_differs', 'SynthDef.%s sent %s instead of [\'/d_recv\', <%s bytes>, %s]'
                          % (k['via'], show(sent[0]['args']), k['L'], show(comp)), k, {'sent': show(sent[0]['args'])}, 'send_path_choice')
             elif sent and sent[0]['args'][0] == S('/d_load'):
-                if sent[0]['args'][2:] != [comp] or not o.get('file_written'):
+                if norm(sent[0]['args'][2:]) != norm([comp]) or not o.get('file_written'):
                     fail('C06:d_load_message_differs', 'the /d_load fallback does not carry the completion message or wrote no file: %s' % show(sent[0]['args']), k, {}, 'send_path_choice')
             # the decision against the model, on the message that is to be sent
             if is_tuple(comp) and len(comp['t']) == 4:
@@ -858,7 +954,7 @@ def check_sites(ctx, c):
                 if clumped_path and seen != wt or (not clumped_path and calls and seen[0] != (None if no_time else k['time'])):
                     fail('C06:%s_latency' % k['kind'], '%s: the bundles were sent with latencies %s, expected %s (latency %s)'
                          % (k['kind'], show(seen[:4]), show(wt[:4]), show(k['time'])), k, {'latencies': [show(x) for x in seen[:6]]}, 'bundle_roundtrip')
-            if got != k['els']:
+            if norm(got) != norm(k['els']):
                 fail('C06:%s_elements_lost' % k['kind'], '%s did not carry every element exactly once and in order: %d elements in, %d out'
                      % (k['kind'], len(k['els']), len(got)), k, {'clump_lengths': lens}, 'clump_partition')
             if len(lens) > 1:
@@ -1242,6 +1338,8 @@ def probe_trees(ctx):
            ('msg', [S('/x'), [Fl(0.0), [S('/y')]]]), ('msg', [S('/x'), [None, [S('/y'), Y(b'abc')]]]),
            ('bundle', [Fl(0.2), [S('/x'), Y(b'abcde')], [S('/y'), S('éééé')]]),
            ('bundle', [None, [None, [S('/y')]]]), ('msg', [S('/é'), I(1)]), ('msg', [S('/x'), [None, [None, [S('/y')]]]]),
+           ('msg', [S('/x'), MV('i', 3)]), ('msg', [S('/x'), MV('d', 2), I(1)]), ('msg', [S('/x'), MV('H', 4, shape=[2, 2])]),
+           ('msg', [S('/x'), MV('i', 6, step=2)]), ('bundle', [Fl(0.2), [S('/a'), MV('q', 2)], [S('/b'), [S('/c'), MV('f', 3)]]]),
            ('msg', [S('/x'), Tup(S('/y'), I(1))]), ('msg', [S('/d_recv'), Y(b'ab'), Tup(S('/n_set'), I(1000), S('freq'), Fl(440.0))]),
            ('msg', [S('/x'), Tup(I(1), I(2), I(3), I(4))]), ('bundle', [Fl(0.2), Tup(S('/a'), I(1)), [S('/b'), Tup(S('/c'), Y(b'abcde'))]]),
            ('msg', [S('/x'), S('a\x00b')]), ('msg', [S('/x'), S('a\x00bcdefg'), I(5)]), ('msg', [S('/a\x00b'), I(1)]),
@@ -1260,6 +1358,11 @@ def probe_trees(ctx):
         t, kind = malform(rng, base)
         ts.append(('msg', t))
     return ts
+
+
+MV_SIGS = ('C06:size_prediction_below_real', 'C06:roundtrip', 'C06:library_parser_differs', 'C06:valid_input_refused',
+           'C06:dsend_oversized_datagram', 'C06:clumped_oversized_datagram', 'C06:sync_oversized_datagram', 'C06:site_roundtrip', 'C06:site_error',
+           'C06:clumped_plan_differs', 'C06:sync_plan_differs', 'C06:d_recv_choice_differs', 'C06:sendmsg_differs')
 
 
 def nested_time_violation(dec, outer=None):
@@ -1301,6 +1404,10 @@ def search(ctx, failures):
     seen = set()
 
     def report(sig, what, replay, theorem):
+        case = (replay or {}).get('case') or {}
+        if sig in MV_SIGS and has_wide_mv(case.get('v')):
+            sig = 'C06:memoryview-blob-item-count'     # the blob is sized/encoded by len(view), its item count
+            what = what + '  [a memoryview blob whose len() is not its size in bytes]'
         if sig in seen:
             return
         seen.add(sig)
